@@ -526,27 +526,42 @@ func earlyReturnAfter(swap ssa.Instruction, r *ssa.Return) bool {
 	if !ok {
 		return false
 	}
-	for _, ref := range *v.Referrers() {
-		switch x := ref.(type) {
-		case *ssa.If:
-			for _, s := range x.Block().Succs {
+	// the "already stopped" return sits on the edge on which the swap answered false (the previous value of the
+	// running flag): the edge taken when the flag's old value, followed through negations, is false
+	var walk func(val ssa.Value, neg bool, d int) bool
+	walk = func(val ssa.Value, neg bool, d int) bool {
+		if d > 4 || val.Referrers() == nil {
+			return false
+		}
+		for _, ref := range *val.Referrers() {
+			switch x := ref.(type) {
+			case *ssa.If:
+				// Succs[0] is taken when the tested value is true; the old value is false on Succs[0] iff negated
+				s := x.Block().Succs[1]
+				if neg {
+					s = x.Block().Succs[0]
+				}
 				if s == r.Block() && len(s.Instrs) <= 2 {
 					return true
 				}
-			}
-		case *ssa.UnOp:
-			for _, rr := range *x.Referrers() {
-				if ifi, ok := rr.(*ssa.If); ok {
-					for _, s := range ifi.Block().Succs {
-						if s == r.Block() && len(s.Instrs) <= 2 {
-							return true
-						}
-					}
+			case *ssa.UnOp:
+				if x.Op == token.NOT && walk(x, !neg, d+1) {
+					return true
 				}
 			}
 		}
+		return false
 	}
-	return false
+	// a flag of the opposite meaning (closed.Swap(true)): "already stopped" is the edge on which the old value is true
+	if call, isCall := swap.(ssa.CallInstruction); isCall {
+		args := call.Common().Args
+		if len(args) > 0 {
+			if k, isK := args[len(args)-1].(*ssa.Const); isK && k.Value != nil && k.Value.String() == "true" {
+				return walk(v, true, 0)
+			}
+		}
+	}
+	return walk(v, false, 0)
 }
 
 func reachableFrom(from, to *ssa.BasicBlock) bool {
